@@ -94,13 +94,15 @@ def gen_cases(ctx):
     for pat in pats[:ctx.budget(250, 1500)]:
         loop = rng.choice(["newton", "flowpath", "thermal", "fem"])
         miter = rng.randint(0, 4)
-        c = {"loop": loop, "script": list(pat) + [pat[-1]] * 60, "miter": miter,
+        c = {"loop": loop, "script": list(pat) + [pat[-1]] * 1300, "miter": miter,
              "rtol": rng.choice([1e-6, 1e-3, 0.9, 0.0]), "atol": rng.choice([1e-8, 1e-2, 10.0, 0.0])}
         cases.append(c)
     for seq in gen_scripts(rng, ctx.budget(300, 2000), 14):
         loop = rng.choice(["newton", "newton", "thermal", "flowpath", "fem", "spring"])
-        c = {"loop": loop, "script": seq + [seq[-1]] * 80, "miter": rng.choice([0, 1, 2, 3, 5, 8]),
-             "rtol": 10.0 ** rng.randint(-9, 0), "atol": 10.0 ** rng.randint(-12, 2)}
+        c = {"loop": loop, "script": seq + [seq[-1]] * 1300, "miter": rng.choice([0, 1, 2, 3, 5, 8]),
+             # tolerances 3*10^k: never equal to a ratio of scripted values (powers of 10 and 2), so that the
+             # implementation's rounded float quotient and the model's exact quotient fall on the same side
+             "rtol": 3.0 * 10.0 ** rng.randint(-9, -1), "atol": 3.0 * 10.0 ** rng.randint(-12, 1)}
         if rng.random() < 0.15:
             c.pop("miter")          # documented default budget
         if rng.random() < 0.15:
@@ -122,7 +124,7 @@ def gen_cases(ctx):
         mk = lambda: [rng.choice([0.0, 1e-12, 1e-5, 1e-2, 1.0, 50.0, NAN, INF]) for _ in range(n)]
         cases.append({"loop": "picard", "T0": rng.choice([300.0, 1e-3, 0.0]), "F0": rng.choice([500.0, 1e-6]),
                       "dT": mk() + [0.0] * 30, "dF": mk() + [0.0] * 30, "miter": rng.choice([0, 1, 2, 3, 6, 20]),
-                      "rtol": 10.0 ** rng.randint(-9, -1), "atol": 10.0 ** rng.randint(-9, 1)})
+                      "rtol": 3.0 * 10.0 ** rng.randint(-9, -1), "atol": 3.0 * 10.0 ** rng.randint(-9, 1)})
     for i, c in enumerate(cases):
         c["id"] = i
     return cases
@@ -170,6 +172,7 @@ def coq_case(c, r):
             return "poutcome_eqb (%s) (PRet %d)" % (model, r["calls"] - 1)
         return "poutcome_eqb (%s) PRaise" % model
     need = r.get("calls", 0) + 2
+    need = min(need, len(c["script"]))
     obs = "(obs_of %s)" % coq_list([ext(x) for x in c["script"][:max(need, 2)]])
     if loop in ("newton", "spring"):
         ls = c.get("linesearch", True)
